@@ -91,6 +91,32 @@ func checkC03(c *Ctx) *core.Result {
 	c08 := checkC08(&Ctx{P: p, Tier: c.Tier, VerifDir: c.VerifDir, Property: "C08"})
 	importRules(r, c08, "R-gate/", map[string]bool{"V2": true, "V3": true, "V4": true, "anchor": true})
 
+	// ---- R-merge: phrase candidates are built from token values, never from raw input
+	if merge := a.Fn("sql.merge"); merge != nil {
+		n := 0
+		for _, ci := range ssax.Calls(merge) {
+			callee := ci.Common().StaticCallee()
+			if callee == nil || !p.InModule(callee) {
+				continue
+			}
+			for _, arg := range ci.Common().Args {
+				if !isStringType(arg.Type()) {
+					continue
+				}
+				n++
+				expr := "phrase candidate " + ssax.Canon(arg) + " handed to " + callee.Name()
+				if rawInputLeaf(a, arg, map[ssa.Value]bool{}, 0) {
+					r.Fail("R-merge", core.QualName(merge), expr, p.Pos(ci.Pos()), "a two-word phrase candidate is cut out of the raw input: the separator between the words is then whatever byte the input has (tab, line feed, a comment), not the single space of the keyword table — UNION<tab>ALL, ORDER<lf>BY are no longer recognised")
+				} else {
+					r.OK("R-merge", core.QualName(merge), expr, p.Pos(ci.Pos()), "built from token values and constants")
+				}
+			}
+		}
+		if n == 0 {
+			r.Fail("vacuity", core.QualName(merge), "R-merge phrase candidates", p.Pos(merge.Pos()), "merge hands no string to a module function: the phrase look-up was not found")
+		}
+	}
+
 	// ---- R-sep: separator dispatch
 	disp, derr := tables.EvalDispatch(p)
 	if derr != nil || len(disp.Table) != 256 {
@@ -309,7 +335,7 @@ func checkC03(c *Ctx) *core.Result {
 		}
 	}
 
-	r.Explanation = "NECESSARY CONDITIONS ONLY — this check decides the structural parts listed here, not detection. R-lex (E3 relational abstract interpretation of every SQL lexer from an arbitrary cursor): every search hit (comment terminator, newline, closing quote) lies behind the returned cursor, string tokens end at their terminator, every token lies inside the span its scan step consumed, the stored length is the clipped scanned length, every step consumes ≥ 1 byte. R-fp: the 147 fingerprints that a fixed canonical attack grammar (9 context prefixes × 9 separators × 29 payloads × 7 tails × 3 case assignments) maps to were computed once, at design time, by running the pinned code, and are frozen in baseline/required_fingerprints.json; the check verifies statically (E2) that each is still an 'F' key. R-ctx: the parsing-context cascade, gates, per-pass reset and virtual-quote wiring (all rules of C12). R-gate: verdict = blacklist ∧ whitelist (C08 V2–V4). R-sep (closed-initialiser evaluation of the dispatch table): the SQL white-space bytes are dispatched to the skipping lexer, the white predicate's tabulated set is inside the skipped set, '/' reaches the `*/` search, '-' and '#' reach the end-of-line comment lexer, quotes reach the string lexer, letter dispatch is case-symmetric. NOT decided: that tokenizer+folder still map each member of the grammar to those fingerprints (folding rules, comment/number lexing) — that is input→output behaviour."
+	r.Explanation = "NECESSARY CONDITIONS ONLY — this check decides the structural parts listed here, not detection. R-lex (E3 relational abstract interpretation of every SQL lexer from an arbitrary cursor): every search hit (comment terminator, newline, closing quote) lies behind the returned cursor, string tokens end at their terminator, every token lies inside the span its scan step consumed, the stored length is the clipped scanned length, every step consumes ≥ 1 byte. R-fp: the 147 fingerprints that a fixed canonical attack grammar (9 context prefixes × 9 separators × 29 payloads × 7 tails × 3 case assignments) maps to were computed once, at design time, by running the pinned code, and are frozen in baseline/required_fingerprints.json; the check verifies statically (E2) that each is still an 'F' key. R-ctx: the parsing-context cascade, gates, per-pass reset and virtual-quote wiring (all rules of C12). R-gate: verdict = blacklist ∧ whitelist (C08 V2–V4). R-sep (closed-initialiser evaluation of the dispatch table): the SQL white-space bytes are dispatched to the skipping lexer, the white predicate's tabulated set is inside the skipped set, '/' reaches the `*/` search, '-' and '#' reach the end-of-line comment lexer, quotes reach the string lexer, letter dispatch is case-symmetric. R-merge: every string that merge hands to a module function (the two-word phrase candidate) is built from token values and constants — no part of it is a slice of the raw input, whose separator byte would not be the single space of the keyword table. NOT decided: that tokenizer+folder still map each member of the grammar to those fingerprints (folding rules, comment/number lexing) — that is input→output behaviour."
 	r.Trusted = []string{"baseline/required_fingerprints.json (calibrated once on the pinned tree)", "go/types constants", "closed-initialiser evaluation", "rules of C12 and C08"}
 	return r
 }
@@ -653,4 +679,37 @@ func containsByteDesc(a *Anchors, f ssax.Fact) string {
 		}
 	}
 	return ""
+}
+
+// rawInputLeaf: the string value is (partly) a slice of the SQL state's input field.
+func rawInputLeaf(a *Anchors, v ssa.Value, seen map[ssa.Value]bool, depth int) bool {
+	if v == nil || seen[v] || depth > 10 {
+		return false
+	}
+	seen[v] = true
+	switch x := v.(type) {
+	case *ssa.UnOp:
+		return a.loadsField(v, "sql.state.input")
+	case *ssa.Slice:
+		return rawInputLeaf(a, x.X, seen, depth+1)
+	case *ssa.BinOp:
+		return rawInputLeaf(a, x.X, seen, depth+1) || rawInputLeaf(a, x.Y, seen, depth+1)
+	case *ssa.Phi:
+		for _, e := range x.Edges {
+			if rawInputLeaf(a, e, seen, depth+1) {
+				return true
+			}
+		}
+	case *ssa.ChangeType:
+		return rawInputLeaf(a, x.X, seen, depth+1)
+	case *ssa.Convert:
+		return rawInputLeaf(a, x.X, seen, depth+1)
+	case *ssa.Call:
+		for _, arg := range x.Common().Args {
+			if isStringType(arg.Type()) && rawInputLeaf(a, arg, seen, depth+1) {
+				return true
+			}
+		}
+	}
+	return false
 }
